@@ -4,7 +4,7 @@ R-monitor: postcondition on every concrete return of geom.get_unique_invariant_f
 in every ginjax namespace): each filter fixed by every g of the supplied group under the reference action,
 rank == count (exact rational elimination for scale='one', SVD with a gap check for 'normalize'),
 count == character formula (integer arithmetic); both scale modes have the same span; assembly into a
-MultiImage/dict/list loses and invents nothing. Finite sweep over (G, D, M, k, p)."""
+MultiImage/dict/list loses and invents nothing. Finite sweep over (G, D, M, k, p), G ranging over named subgroups on the large tuples and over every subgroup of B_2 / B_3 (enumerated from the multiplication table) on small ones."""
 from __future__ import annotations
 
 import numpy as np
